@@ -70,7 +70,15 @@ func runC13(c *run.Ctx) {
 			}
 		}
 		mixed := fmt.Sprintf("type ZzBird { a: Int old: %s olds: [%s!] }\n\nunion ZzAnimal = %s | ZzBird\n\nunion ZzAnimal2 = ZzBird | %s\n\ninterface ZzI { a: Int }\n\ntype ZzImpl implements ZzI { a: Int pet: ZzAnimal }", oldObj, oldObj, oldObj, oldObj)
-		for li, later := range []string{"type ZzLater0 { a: Int }", "input ZzLater1 { a: Int = 1, b: [ZzLater1!] }\n\nenum ZzLater2 { A B }", "scalar ZzLater3", mixed} {
+		// types named like directives the root already has (built-in ones and one of the document's own): types and directives
+		// are two name spaces
+		likeDirs := "type skip { a: Int }\n\nscalar deprecated\n\nenum include { A }\n\ninput go { a: Int }\n\ntype ZzUsesThem { s: skip d: deprecated i(a: go, e: include): Int }"
+		likeKinds := map[string]string{"skip": "*ggql.Object", "include": "*ggql.Enum", "go": "*ggql.Input"}
+		if len(ms.Dirs) > 0 && ms.Type(ms.Dirs[0].Name) == nil && oldObj != "" {
+			likeDirs += fmt.Sprintf("\n\nunion %s = skip | %s\n\nextend type ZzUsesThem { m: %s }", ms.Dirs[0].Name, oldObj, ms.Dirs[0].Name)
+			likeKinds[ms.Dirs[0].Name] = "*ggql.Union"
+		}
+		for li, later := range []string{"type ZzLater0 { a: Int }", "input ZzLater1 { a: Int = 1, b: [ZzLater1!] }\n\nenum ZzLater2 { A B }", "scalar ZzLater3", mixed, likeDirs} {
 			var lerr error
 			if li == 2 {
 				lerr = root.AddTypes(&ggql.Scalar{Base: ggql.Base{N: "ZzLater3"}})
@@ -81,6 +89,17 @@ func runC13(c *run.Ctx) {
 			if lerr != nil {
 				c.Violation("c13-wellformed-later-load-rejected", map[string]interface{}{"sdl": sdl, "later_load": later, "step": li + 2, "error": lerr.Error()})
 				break
+			}
+			if li == 4 {
+				for tn, want := range likeKinds {
+					if got := fmt.Sprintf("%T", root.GetType(tn)); got != want {
+						c.Violation("c13-accepted-schema-differs", map[string]interface{}{"sdl": sdl, "later_load": later, "diag": fmt.Sprintf("type %s of the accepted document is a %s in the root, expected a %s", tn, got, want)})
+					}
+				}
+				if got := fmt.Sprintf("%T", root.GetType("deprecated")); !strings.Contains(got, "calar") {
+					c.Violation("c13-accepted-schema-differs", map[string]interface{}{"sdl": sdl, "later_load": later, "diag": "scalar deprecated of the accepted document is a " + got + " in the root"})
+				}
+				c.Count("types_named_like_directives_checked", len(likeKinds)+1)
 			}
 		}
 		if i%5 == 0 {
@@ -180,6 +199,7 @@ func runC13(c *run.Ctx) {
 			}
 		}
 	}
+	mutants += c13Builders(c)
 	c.MinNontriv = (n + mutants) / 3
 	c.Set("mutants_loaded", mutants)
 }
